@@ -25,7 +25,7 @@ Record case_C05 := {
 
 Definition init_core (cap0 : N) : cstate :=
   {| files := []; mems := []; buf := []; reg := []; cap := cap0; caps := []; depth := 0;
-     dk := {| vers := []; clock := 1; nowrite := []; ferr := false |} |}.
+     dk := {| vers := []; clock := 1; nowrite := []; ferr := false; oerr := false |} |}.
 Definition init_js (cap0 : N) : jstate := {| core := init_core cap0; dirs := []; jobs := []; nexth := 1%N |}.
 
 Definition model_obs (js : jstate) (r : result json) : obs5 :=
@@ -136,18 +136,21 @@ Definition rstep (rs : rstate) (it : jitem) (o : obs5) : rstate * bool :=
       match nlookup j (r_jobs rs) with
       | None => (rs, false)
       | Some f =>
+          (* the document is gone: whoever uses the (re-created) job's document afterwards starts afresh *)
           ({| r_docs := nremove f (r_docs rs); r_dirs := del_dir (r_dirs rs) f; r_jobs := r_jobs rs;
-              r_depth := r_depth rs; r_acc := r_acc rs |}, res_py_eq (o_ret o) (Ok JNull))
+              r_depth := r_depth rs; r_acc := nremove f (r_acc rs) |}, res_py_eq (o_ret o) (Ok JNull))
       end
   | JEnter _ =>
-      ({| r_docs := r_docs rs; r_dirs := r_dirs rs; r_jobs := r_jobs rs; r_depth := S (r_depth rs); r_acc := r_acc rs |}, true)
+      ({| r_docs := r_docs rs; r_dirs := r_dirs rs; r_jobs := r_jobs rs; r_depth := S (r_depth rs); r_acc := r_acc rs |},
+       res_py_eq (o_ret o) (Ok JNull))
   | JExit =>
       match r_depth rs with
       | O => (rs, true)
       | S d => ({| r_docs := r_docs rs; r_dirs := r_dirs rs; r_jobs := r_jobs rs; r_depth := d;
-                   r_acc := match d with O => [] | S _ => r_acc rs end |}, true)
+                   r_acc := match d with O => [] | S _ => r_acc rs end |},
+                res_py_eq (o_ret o) (Ok JNull))     (* buffering must not introduce errors *)
       end
-  | JSetCap _ => (rs, true)
+  | JSetCap _ => (rs, res_py_eq (o_ret o) (Ok JNull))
   end.
 
 (* outside buffered blocks every document file parses to the plain dict (a missing file = empty document),
@@ -197,6 +200,11 @@ Fixpoint shared_in_block (jobs : list (N * N)) (d : nat) (acc : list (N * (list 
                  | S O => shared_in_block jobs O [] r
                  | S d' => shared_in_block jobs d' acc r
                  end
+      | JRemove j =>
+          match nlookup j jobs with
+          | Some f => shared_in_block jobs d (nremove f acc) r
+          | None => shared_in_block jobs d acc r
+          end
       | JOp j _ op =>
           match d, nlookup j jobs with
           | S _, Some f =>
@@ -224,8 +232,25 @@ Definition obs_marked (o : obs5) : bool :=
   match o_ret o with Ok v => has_marker v | Err _ => false end
   || existsb (fun kv => has_marker (snd kv)) (o_files o).
 
+(* ---- known finding 3: job.remove() inside a buffered block while the job's document is in the buffer and
+        its file existed when it was buffered: the entry outlives the file; the flush finds the file changed
+        (MetadataError) or its directory gone and raises BufferedError — on block exit, or out of whatever
+        operation forces a flush — and what was buffered for the re-created job is dropped.  Recognised by:
+        the program removes a job inside a block AND the model run predicts a BufferedError ---- *)
+Fixpoint remove_in_block (d : nat) (prog : list jitem) : bool :=
+  match prog with
+  | [] => false
+  | JEnter _ :: r => remove_in_block (S d) r
+  | JExit :: r => remove_in_block (pred d) r
+  | JRemove _ :: r => match d with O => remove_in_block d r | S _ => true end
+  | _ :: r => remove_in_block d r
+  end.
+Definition predicts_buffered_error (c : case_C05) : bool :=
+  existsb (fun o => match o_ret o with Err ERuntimeError => true | _ => false end) (run_C05 c).
+
 Definition classify_C05 (c : case_C05) : N :=
-  if existsb obs_marked (run_marked c) then 2%N
+  if remove_in_block 0 (c5_prog c) && predicts_buffered_error c then 3%N
+  else if existsb obs_marked (run_marked c) then 2%N
   else if shared_in_block [] 0 [] (c5_prog c) then 1%N else 0%N.
 
 Fixpoint tags_aux {A} (f : A -> N) (l : list A) (i : N) : list N :=
